@@ -12,7 +12,7 @@ Oracle: the receiver (client for RESPMOD, origin for REQMOD) gets a message whos
 body is exactly V (complete) or a prefix of V (visibly incomplete), or marker adapted with A likewise, or an error.
 With bypass=on, a connection fault before any ICAP response byte and |V| <= 16 KB the virgin message must arrive complete.
 """
-import random, threading, time
+import random, time, threading, time
 from lab import base, httpref
 from lab.lab import Lab, run_cases, Resp, Conn, request_bytes, make_body
 from lab.x_icap import IcapServer
@@ -64,6 +64,14 @@ def gen_case(seed, n):
         if c["fault"]["kind"] == "stall" and r.random() < 0.7:
             c["fault"]["kind"] = "close"                # stalls cost seconds: keep them rare
     c["garbage"] = r.randrange(len(GARBAGE))
+    # REQMOD 204-in-preview of a multi-megabyte chunked upload into an origin that starts reading late through a small
+    # receive buffer: the echoed virgin body is produced faster than it is consumed (back-pressure inside the echo loop)
+    c["bigslow"] = (n % 71 == 3)
+    if c["bigslow"]:
+        c.update(mode="rq", method="POST", preview=r.choice(["p7", "p1024", "p4096"]), allow=1, bypass=r.choice([0, 1]), vframing="chunked",
+                 vlen=6 * 1024 * 1024 + r.randrange(0, 4000), action="204", when="preview", fault=None, satisfy=False, nsplits=0, conn_close=False,
+                 chunks=[r.choice([65536, 100000, 1 << 20]) for _ in range(3)])
+        c["svc"] = f"{c['mode']}_{c['preview']}_a{c['allow']}_b{c['bypass']}"
     return c
 
 
@@ -84,6 +92,20 @@ def run(a, res):
         with lock:
             vresp[req.req_id] = resp
         return resp
+
+    def before_body(req):
+        c = table.get(path_of(req.target))
+        if c is not None and c.get("bigslow"):
+            import socket as _s
+            try:
+                req.sock.setsockopt(_s.SOL_SOCKET, _s.SO_RCVBUF, 8192)
+            except OSError:
+                pass
+            time.sleep(2.0)
+            res.count("bigslow_reqmod_uploads")
+        return None
+
+    handler.before_body = before_body
 
     def adapted_body(c):
         return None if c["alen"] is None else make_body(f"a{c['seed']}x{c['n']}", c["alen"])
